@@ -643,8 +643,12 @@ class OpenSystem:
             
                 dsum = 0.0
                 
+                # energies relative to the lowest one (a common shift 
+                # does not change the state, but it may underflow)
+                e0 = numpy.min(numpy.real(numpy.diag(H.data)))
+                
                 for n in range(H._data.shape[0]):
-                    dat[n,n] = numpy.exp(-H.data[n,n]/(kB_intK*T))
+                    dat[n,n] = numpy.exp(-(H.data[n,n]-e0)/(kB_intK*T))
                     dsum += dat[n,n]
 
                 dat *= 1.0/dsum
